@@ -45,3 +45,19 @@ package encoding
 //@     invariant[C11] 0 <= iter
 //@     decreases len(msg) - iter
 //@     lemma wf_seq_at(msg, iter)
+
+// C03: validateRaw accepts only correctly framed byte strings. bs, bl, cs are
+// the three KeyValues the function builds and scans; whatever values the scan
+// found, acceptance implies that d decomposes exactly into them.
+//@ func validateRaw(msg messages.Builder, d []byte, strict bool) (err error)
+//@   safety[C11]
+//@   requires msg != nil
+//@   call unmarshalItems#1: lemma wf_kv_intro(bs); wf_kv_intro(bl); wf_kv_intro(cs); wf_seq_3(arg0)
+//@   witness pos = len(d) - len(wireKV(cs)) - 1
+//@   witness R = sub(string(d), len(wireKV(bs)) + len(wireKV(bl)) + 2, pos)
+//@   witness L = from(string(wireKV(bl)), len(bl.Key) + 1)
+//@   ensures[C03] @framed imp(err == nil, string(d) == cat(wireKV(bs), SOH, wireKV(bl), SOH, R, wireKV(cs), SOH))
+//@   ensures[C03] @fields imp(err == nil, hasPrefix(string(wireKV(bs)), cat(tagBS(msg), "=")) && hasPrefix(string(wireKV(bl)), cat(tagBL(msg), "=")) && hasPrefix(string(wireKV(cs)), cat(tagCS(msg), "=")))
+//@   ensures[C03] @length imp(err == nil, isint(L) && atoi(L) == len(R))
+//@   ensures[C03] @checksum imp(err == nil, from(string(wireKV(cs)), len(cs.Key) + 1) == digits3(bsum(sub(string(d), 0, pos)) % 256))
+//@   lemma wireV_raw(bs.Value); wireV_raw(bl.Value); wireV_raw(cs.Value); bsum_snoc(string(d), pos - 1); bsum_nonneg(sub(string(d), 0, pos - 1))
